@@ -44,8 +44,8 @@ from mc.ref import interp, embed as E
 
 PROPERTY = "C06"
 LEVEL = "exploration"
-RULE = ("circuits = every sequence (length<=2 over the full ~50-letter alphabet; length 3 (quick) / 3..4 (thorough) over a "
-        "per-transformer relevant sub-alphabet of <=12 letters; thorough adds length 3 over the full alphabet) of gates, "
+RULE = ("circuits = every sequence (length<=2 over the full 52-letter alphabet; length 3 (quick) / 3..4 (thorough) over a "
+        "per-transformer relevant sub-alphabet of <=12 letters; thorough adds length 3 over a 32-letter wide alphabet) of gates, "
         "measurements, classically controlled ops, resets, tagged ops, CircuitOperations, parameterized gates, global phase, "
         "empty moments on qubits a,b,c x layout (earliest-packed / one-op-per-moment) x every transformer configuration x "
         "deep in {False,True}; randomized transformers: ALL scripted-PRNG paths; a case is non-trivial when the transformer "
@@ -181,6 +181,7 @@ def build(seq, layout):
 # reference semantics
 
 _UC: dict = {}
+_EC: dict = {}
 
 
 def op_unitary(op):
@@ -227,6 +228,10 @@ def flat_ops(circuit, stats=None):
                 yield op
 
 
+class ControlBeforeMeasurement(Exception):
+    """The circuit reads a measurement key that has not been recorded yet (not executable)."""
+
+
 class Meaning:
     """Lazily computed reference meaning of a list of flat operations on a qubit register."""
 
@@ -256,8 +261,23 @@ class Meaning:
             mats.append((u, [idx[q] for q in op.qubits]))
         D = int(np.prod(shape))
         U = np.eye(D, dtype=np.complex128)
-        for u, axes in mats:
-            U = E.embed(u, axes, shape) @ U
+        std = self.qs == QS
+        for (u, axes), op in zip(mats, (o for o in self.ops if o.qubits)):
+            if std:
+                # embedded 8x8 matrices of hashable operations on the standard register are cached
+                try:
+                    m = _EC.get(op)
+                except TypeError:
+                    m = E.embed(u, axes, shape)
+                else:
+                    if m is None:
+                        m = E.embed(u, axes, shape)
+                        if len(_EC) > 50000:
+                            _EC.clear()
+                        _EC[op] = m
+            else:
+                m = E.embed(u, axes, shape)
+            U = m @ U
         return U
 
     def dist(self, psi3):
@@ -268,7 +288,10 @@ class Meaning:
                 e0 = np.zeros(2 ** n_extra, dtype=np.complex128)
                 e0[0] = 1
                 psi = np.kron(psi3, e0)
-            d = interp.run(None, self.qs, rho0=psi, ops=self.ops)
+            try:
+                d = interp.run(None, self.qs, rho0=psi, ops=self.ops)
+            except KeyError as e:
+                raise ControlBeforeMeasurement(f"an operation is controlled by key {e} before that key is measured") from None
             if n_extra:
                 shape = (2,) * len(self.qs)
                 d = {k: (p, E.partial_trace(r, [0, 1, 2], shape)) for k, (p, r) in d.items()}
@@ -558,10 +581,10 @@ R_ISWG = ["ISWAP(a,b)", "ISWAP(b,c)", "H(a)", "rx(g)(c)", "CZ(a,b)[ignore]", "M(
 R_SQISWG = ["SQRT_ISWAP(a,b)", "SQRT_ISWAP(b,c)", "H(a)", "rx(g)(c)", "ISWAP(a,b)", "M(b;m)"]
 R_SQCZG = ["CZ(a,b)^.5", "CZ(b,c)^-.5", "CZ(a,b)", "H(b)", "rx(g)(c)", "M(b;m)", "CZ(a,b)[ignore]"]
 R_CPH = ["CZ(a,b)^g", "CZ(b,c)^g3", "CZ(a,b)", "H(b)", "rx(g)(c)", "M(b;m)", "CZ(a,b)[ignore]"]
-R_CPHMM = ["CZ(a,b)^g", "CZ(b,c)^g3", "CZ(a,b)", "Z(a)^g", "X(b)", "Z(c)", "I(a)", "H(b)", "M(b;m)", "CZ(a,b)[ignore]", "Y(c)", "Moment()"]
+R_CPHMM = ["CZ(a,b)^g", "CZ(b,c)^g3", "CZ(a,b)", "Z(a)^g", "X(b)", "Z(c)", "H(b)", "M(b;m)", "CZ(a,b)[ignore]"]
 R_SPIN = ["ZZ(a,b)^g", "ZZ(b,c)", "H(a)", "rx(g)(c)", "CZ(a,b)[ignore]", "M(b;m)", "X(b)", "Moment()"]
 R_SYC = ["SYC(a,b)", "SYC(b,c)", "H(a)", "rx(g)(c)", "CZ(a,b)[ignore]", "M(b;m)", "X(b)"]
-R_IDLE = ["X(a)", "H(b)", "Z(c)", "CZ(a,b)", "CZ(b,c)", "H(b)[ignore]", "M(a;m)", "R(a)", "X(a)^s", "X(b)?m", "Moment()", "S(c)"]
+R_IDLE = ["X(a)", "H(b)", "Z(c)", "CZ(a,b)", "H(b)[ignore]", "M(a;m)", "R(a)", "X(a)^s", "Moment()"]
 R_GOOG = ["SWAP(a,b)", "ZZ(a,b)^g", "ZZ(b,c)", "SWAP(b,c)", "H(a)", "CZ(a,b)", "rx(g)(c)", "X(a)[ignore]", "CZ(a,b)[ignore]",
           "M(b;m)", "X(b)?m", "SUB[H(a),CZ(a,b),Y(b)[ignore],Z(a)^g]"]
 
@@ -798,7 +821,10 @@ def check_output(cfg, inp: Input, deep, out, counters):
     out_flat = list(flat_ops(out, stats))
     if stats:
         counters["flatten_fallbacks"] = counters.get("flatten_fallbacks", 0) + stats.get("fallback", 0)
-    msg = ORACLES[cfg.oracle](cfg, inp, deep, out, out_flat, sweep)
+    try:
+        msg = ORACLES[cfg.oracle](cfg, inp, deep, out, out_flat, sweep)
+    except ControlBeforeMeasurement as e:
+        msg = f"the returned circuit cannot be executed: {e}"
     if msg:
         return bad(msg + "\n" + _fmt(inp, cfg, deep, out), kind="meaning", oracle=cfg.oracle, **sig)
     return None
@@ -1092,6 +1118,8 @@ def documented_rejection(cfg, inp, deep, e) -> bool:
             return True
         if "Multiple tags are prefixed" in s:
             return True
+        if n.startswith("merge_single_qubit_gates_to_phxz_symbolized") and "are used by single-qubit gates and by" in s:
+            return True  # symbols shared between single-qubit gates and other operations are rejected explicitly
         if n.startswith("RandomizedMeasurements") and "Measuring an empty set of qubits" in s and not inp.circuit.all_qubits():
             return True
     return False
@@ -1099,6 +1127,18 @@ def documented_rejection(cfg, inp, deep, e) -> bool:
 
 # ---------------------------------------------------------------------------------------------
 # case runner
+
+
+def classify(cfg, inp, res):
+    """Adds a 'defect' label to the signature of violations that belong to a recognised, reported defect class."""
+    name = cfg.name.split("[")[0]
+    if name == "merge_single_qubit_gates_to_phxz_symbolized" and res.sig.get("kind") == "meaning":
+        one, other = set(), set()
+        for op in inp.flat:
+            (one if len(op.qubits) == 1 else other).update(cirq.parameter_names(op))
+        if one & other:
+            res.sig["defect"] = "phxz_symbolized_symbol_shared_with_multi_qubit_op"
+    return res
 
 
 def run_case(case):
@@ -1136,7 +1176,7 @@ def run_case(case):
         if r == "rejected":
             return Res(skipped=True, nontrivial=False, counters=counters)
         if r is not None:
-            return r
+            return classify(cfg, inp, r)
         return Res(ok=True, nontrivial=nontrivial[0], counters=counters)
     # randomized: every path of the scripted generator
     paths = 0
@@ -1159,7 +1199,7 @@ def run_case(case):
     counters["max_paths"] = paths
     if first_bad is not None:
         first_bad.counters = counters
-        return first_bad
+        return classify(cfg, inp, first_bad)
     if abs(wsum - 1) > 1e-6:
         return bad(f"gauge path weights sum to {wsum}\n" + _fmt(inp, cfg, deep), kind="weights", transformer=cfg.name)
     return Res(ok=True, nontrivial=nontrivial[0], counters=counters)
@@ -1277,6 +1317,7 @@ def _init(seed):
             raise core.HarnessError(f"relevant alphabet of {cfg.name} has {len(cfg.rel)} letters")
     _QM_L = qm_letters()
     _UC.clear()
+    _EC.clear()
     _INCACHE.clear()
 
 
@@ -1354,7 +1395,7 @@ def stages(tier, seed):
                 nondet = any(cfg.randomized for _, cfg in g)
                 for seq in _seqs(alpha[:6 if nondet else 9], (4,)):
                     _emit(cases, seq, (0,) if any(0 in cfg.layouts for _, cfg in g) else (1,), g)
-        # (3) thorough: length 3 over the wide alphabet, packed layout, deep=False, deterministic passes
+        # (3) thorough: length 3 over the wide alphabet, packed layout, deterministic passes
         if not quick:
             wcfgs = [(ci, cfg) for ci, cfg in fcfgs if not cfg.randomized]
             if wcfgs:
@@ -1363,7 +1404,8 @@ def stages(tier, seed):
                     for ci, cfg in wcfgs:
                         if set(seq) <= relsets[ci]:
                             continue  # enumerated by (2)
-                        cases.append((seq, cfg.layouts[0], ci, 0))
+                        for deep in ((0, 1) if cfg.deep else (0,)):
+                            cases.append((seq, cfg.layouts[0], ci, deep))
         out.append(CaseStage(fam, cases, run_case, reset=reset, describe=describe))
     # qubit management
     qml = range(len(_QM_L))
